@@ -255,13 +255,13 @@ pub fn monitor(st: &Value, tables: &Tables) -> (Vec<String>, Vec<(i64, i64)>) {
             }
             let voff = geti(s, "voff");
             let (len, size, nxt) = (geti(s, "len"), geti(s, "size"), geti(s, "nxt"));
-            if enc(size / 8) + enc(len) + len + enc(voff / 8) + enc(nxt / 8) > size || s["pad"] != true { fail("C09.fits"); }
+            if enc(size / 8) + enc(len) + len + enc(voff / 8) + enc(nxt / 8) > size { fail("C09.fits"); }
             match vs.get(&voff) {
                 None => { fail("C05.valrefs"); content.push((id, -1)); }
                 Some(v) => {
                     if !usedv.insert(voff) { fail("C05.shared"); }
                     let (vl, vz) = (geti(v, "len"), geti(v, "size"));
-                    if enc(vz / 8) + enc(vl) + vl > vz || v["pad"] != true { fail("C09.fits"); }
+                    if enc(vz / 8) + enc(vl) + vl > vz { fail("C09.fits"); }
                     content.push((id, geti(v, "id")));
                 }
             }
@@ -278,7 +278,6 @@ pub fn monitor(st: &Value, tables: &Tables) -> (Vec<String>, Vec<(i64, i64)>) {
                 let s = match slots.get(&cur) { Some(s) => *s, None => { fail("C06.freelists"); break } };
                 if !free.insert(cur) { fail("C06.freelists"); break; }
                 if class(geti(s, "size")) != c || geti(s, "len") != 0 { fail("C06.freelists"); }
-                if s["fpad"] != true { fail("C09.fits"); }
                 cur = geti(s, "fnext");
             }
         }
